@@ -221,8 +221,10 @@ class Run:
             f"wall={ev['wall_s']}s"
         )
         sys.stdout.flush()
-        if self.errors:
-            return 2
+        # a reported violation stands whatever else could not be analysed (exit 1 with the VIOLATION lines);
+        # analysis errors alone are exit 2 - never a pass
         if violations:
             return 1
+        if self.errors:
+            return 2
         return 0
